@@ -33,7 +33,7 @@ theorem VkB.dropLocal {pre rest : List Stmt} {last : Option Last} {kind : LocalK
   | none =>
     have h1 := Heap.NoRefSs.append.mp (NoRefB.none.mp hn)
     have h2 := NoRefSs.cons.mp h1.2
-    exact ⟨⟨_, .blockNone (.ssPrefix pre h1.1 (.dropLocal hp (.reflSs (Heap.NoRefSs.consName h2.2 hx1))))⟩,
+    exact ⟨⟨_, .blockNone (.ssPrefix pre h1.1 (.dropLocal hp (Heap.NoWat.names (NoRefS.localAssign.mp h2.1).1) (.reflSs (Heap.NoRefSs.consName h2.2 hx1))))⟩,
       NoRefB.none.mpr (Heap.NoRefSs.append.mpr ⟨h1.1, h2.2⟩)⟩
   | some l =>
     have h0 := NoRefB.some.mp hn
@@ -41,36 +41,40 @@ theorem VkB.dropLocal {pre rest : List Stmt} {last : Option Last} {kind : LocalK
     have h2 := NoRefSs.cons.mp h1.2
     have hx2 : ∀ n ∈ ns.map TName.name, l.refs (.ref n) = false := fun n h => by
       have := hx n h; simp only [tailRefs, Bool.or_eq_false_iff] at this; exact this.2
-    exact ⟨⟨_, .blockSome (.ssPrefix pre h1.1 (.dropLocal hp (.reflSs (Heap.NoRefSs.consName h2.2 hx1))))
+    exact ⟨⟨_, .blockSome (.ssPrefix pre h1.1 (.dropLocal hp (Heap.NoWat.names (NoRefS.localAssign.mp h2.1).1) (.reflSs (Heap.NoRefSs.consName h2.2 hx1))))
         (.reflL (Heap.NoRefL.consName h0.2 hx2))⟩,
       NoRefB.some.mpr ⟨Heap.NoRefSs.append.mpr ⟨h1.1, h2.2⟩, h0.2⟩⟩
 
-theorem noWat_of_wok {D : List DName} (hd : WOK D) : ∀ (ns : List TName), NoWat D ns
-  | [] => fun _ _ => rfl
-  | .mk m ty :: ts => NoWat.cons.mpr ⟨hd m, noWat_of_wok hd ts⟩
+theorem noWat_of_fresh {D : List DName} (hd : WatOK cx D) : ∀ (ns : List TName),
+    (∀ n ∈ ns.map TName.name, ¬ cx.watched n) → NoWat D ns
+  | [], _ => fun _ _ => rfl
+  | .mk m ty :: ts, h => NoWat.cons.mpr ⟨fun hm => h m (by simp [TName.name]) (hd.wat m hm),
+      noWat_of_fresh hd ts fun n hn => h n (by simp [hn])⟩
 
 /-- In a closed block, a `local ns = vs` with allocation-only, closed values (`hvs`: they reference
 nothing a dead set may contain) whose names are not referenced in the rest of the block can be
 introduced. -/
 theorem VkB.addLocal {pre rest : List Stmt} {last : Option Last} {kind : LocalKind} {ns : List TName}
     {vs : List Expr} (hp : AllocPureEs vs) (hvs : ∀ D, NoRefEs D vs)
+    (hfresh : ∀ n ∈ ns.map TName.name, ¬ cx.watched n)
     (hx : ∀ n ∈ ns.map TName.name, tailRefs n rest last = false) :
     (VkB cx) (.mk (pre ++ rest) last) (.mk (pre ++ .localAssign kind ns vs :: rest) last) := by
   intro D hd hn
   have hx1 : ∀ n ∈ ns.map TName.name, Stmt.refsList (.ref n) rest = false := fun n h => by
     have := hx n h; simp only [tailRefs, Bool.or_eq_false_iff] at this; exact this.1
-  have hnw : NoWat D ns := noWat_of_wok hd ns
+  have hnw : NoWat D ns := noWat_of_fresh hd ns hfresh
+  have hw := Heap.NoWat.names hnw
   cases last with
   | none =>
     have h1 := Heap.NoRefSs.append.mp (NoRefB.none.mp hn)
-    exact ⟨⟨_, .blockNone (.ssPrefix pre h1.1 (.addLocal hp (.reflSs (Heap.NoRefSs.consName h1.2 hx1))))⟩,
+    exact ⟨⟨_, .blockNone (.ssPrefix pre h1.1 (.addLocal hp hw (.reflSs (Heap.NoRefSs.consName h1.2 hx1))))⟩,
       NoRefB.none.mpr (Heap.NoRefSs.append.mpr ⟨h1.1, NoRefSs.cons.mpr ⟨NoRefS.localAssign.mpr ⟨hnw, hvs D⟩, h1.2⟩⟩)⟩
   | some l =>
     have h0 := NoRefB.some.mp hn
     have h1 := Heap.NoRefSs.append.mp h0.1
     have hx2 : ∀ n ∈ ns.map TName.name, l.refs (.ref n) = false := fun n h => by
       have := hx n h; simp only [tailRefs, Bool.or_eq_false_iff] at this; exact this.2
-    exact ⟨⟨_, .blockSome (.ssPrefix pre h1.1 (.addLocal hp (.reflSs (Heap.NoRefSs.consName h1.2 hx1))))
+    exact ⟨⟨_, .blockSome (.ssPrefix pre h1.1 (.addLocal hp hw (.reflSs (Heap.NoRefSs.consName h1.2 hx1))))
         (.reflL (Heap.NoRefL.consName h0.2 hx2))⟩,
       NoRefB.some.mpr ⟨Heap.NoRefSs.append.mpr ⟨h1.1, NoRefSs.cons.mpr ⟨NoRefS.localAssign.mpr ⟨hnw, hvs D⟩, h1.2⟩⟩, h0.2⟩⟩
 
@@ -87,7 +91,7 @@ theorem VkRep.dropLocal {pre rest : List Stmt} {last : Option Last} {kind : Loca
   | none =>
     have h1 := Heap.NoRefSs.append.mp (NoRefB.none.mp hnb)
     have h2 := NoRefSs.cons.mp h1.2
-    exact ⟨.rep (.blockNone (.ssPrefix pre h1.1 (.dropLocal hp (.reflSs (Heap.NoRefSs.consName h2.2 hx1)))))
+    exact ⟨.rep (.blockNone (.ssPrefix pre h1.1 (.dropLocal hp (Heap.NoWat.names (NoRefS.localAssign.mp h2.1).1) (.reflSs (Heap.NoRefSs.consName h2.2 hx1)))))
         (.reflE (Heap.NoRefE.consName hnc hc)),
       NoRefB.none.mpr (Heap.NoRefSs.append.mpr ⟨h1.1, h2.2⟩), hnc⟩
   | some l =>
@@ -96,7 +100,7 @@ theorem VkRep.dropLocal {pre rest : List Stmt} {last : Option Last} {kind : Loca
     have h2 := NoRefSs.cons.mp h1.2
     have hx2 : ∀ n ∈ ns.map TName.name, l.refs (.ref n) = false := fun n h => by
       have := hx n h; simp only [tailRefs, Bool.or_eq_false_iff] at this; exact this.2
-    exact ⟨.rep (.blockSome (.ssPrefix pre h1.1 (.dropLocal hp (.reflSs (Heap.NoRefSs.consName h2.2 hx1))))
+    exact ⟨.rep (.blockSome (.ssPrefix pre h1.1 (.dropLocal hp (Heap.NoWat.names (NoRefS.localAssign.mp h2.1).1) (.reflSs (Heap.NoRefSs.consName h2.2 hx1))))
           (.reflL (Heap.NoRefL.consName h0.2 hx2))) (.reflE (Heap.NoRefE.consName hnc hc)),
       NoRefB.some.mpr ⟨Heap.NoRefSs.append.mpr ⟨h1.1, h2.2⟩, h0.2⟩, hnc⟩
 
@@ -111,16 +115,19 @@ theorem StExt.setNewCell {N : NumOps} {σ σ1 : State N} (h : StExt σ σ1) {c :
     · exact h.cells i w hi, h.tables, h.closures⟩
 
 theorem dropLocalFn_sound {Q : QRel} {D D' : List DName} {kind : LocalKind} {name : String} {f : FnBody}
-    {rest rest' : List Stmt} (hrest : SoundSs Q cx (DName.ref name :: D) rest rest' D') :
+    {rest rest' : List Stmt} (hw : DName.wat name ∉ D) (hrest : SoundSs Q cx (DName.ref name :: D) rest rest' D') :
     SoundSs Q cx D (.localFn kind name f :: rest) rest' D' :=
-  ⟨fun x hx => hrest.1 x (List.mem_cons_of_mem _ hx), fun N call ρ k env env' σ σ' β hp hs he => by
+  ⟨(DSub.consRef name D).trans hrest.1, fun N call ρ k env env' σ σ' β hp hs he => by
     simp only [execSs, execS, Res.bind]
     have hx : StExt σ (((σ.allocCell .nil).2.allocClosure ⟨f, (name, (σ.allocCell .nil).1) :: env.locals, []⟩).2.setCell
         (σ.allocCell .nil).1 (.fn ((σ.allocCell .nil).2.allocClosure ⟨f, (name, (σ.allocCell .nil).1) :: env.locals, []⟩).1)) :=
       StExt.setNewCell ((StExt.allocCell σ .nil).trans (StExt.allocClosure _ _)) (by simp [State.allocCell]) _
-    have hD : DSub D (DName.ref name :: D) := fun x hx => List.mem_cons_of_mem _ hx
+    have hD : DSub D (DName.ref name :: D) := DSub.consRef name D
     exact hrest.2 N call ρ k _ _ _ _ _ hp (hs.extLeft hx)
-      ⟨he.va, (he.loc.weaken hD).consLeft name _ List.mem_cons_self⟩⟩
+      ⟨he.va, (he.loc.weaken hD).consLeft name _ List.mem_cons_self (fun hm => by
+        rcases List.mem_cons.mp hm with e | hm
+        · cases e
+        · exact hw hm)⟩⟩
 
 theorem VkB.dropLocalFn {pre rest : List Stmt} {last : Option Last} {kind : LocalKind} {name : String} {f : FnBody}
     (hx : tailRefs name rest last = false) :
@@ -135,7 +142,7 @@ theorem VkB.dropLocalFn {pre rest : List Stmt} {last : Option Last} {kind : Loca
     have h1 := Heap.NoRefSs.append.mp (NoRefB.none.mp hn)
     have h2 := NoRefSs.cons.mp h1.2
     exact ⟨⟨_, .blockNone (.ssPrefix pre h1.1 (.genSs fun Q hq =>
-        dropLocalFn_sound (reflSs hq rest _ (Heap.NoRefSs.consName (ns := [TName.mk name none]) h2.2 hx1))))⟩,
+        dropLocalFn_sound (NoRefS.localFn.mp h2.1).1 (reflSs hq rest _ (Heap.NoRefSs.consName (ns := [TName.mk name none]) h2.2 hx1))))⟩,
       NoRefB.none.mpr (Heap.NoRefSs.append.mpr ⟨h1.1, h2.2⟩)⟩
   | some l =>
     have h0 := NoRefB.some.mp hn
@@ -144,7 +151,7 @@ theorem VkB.dropLocalFn {pre rest : List Stmt} {last : Option Last} {kind : Loca
     have hx2 : ∀ n ∈ ([TName.mk name none] : List TName).map TName.name, l.refs (.ref n) = false := fun n h => by
       have := hx' n h; simp only [tailRefs, Bool.or_eq_false_iff] at this; exact this.2
     exact ⟨⟨_, .blockSome (.ssPrefix pre h1.1 (.genSs fun Q hq =>
-        dropLocalFn_sound (reflSs hq rest _ (Heap.NoRefSs.consName (ns := [TName.mk name none]) h2.2 hx1))))
+        dropLocalFn_sound (NoRefS.localFn.mp h2.1).1 (reflSs hq rest _ (Heap.NoRefSs.consName (ns := [TName.mk name none]) h2.2 hx1))))
         (.reflL (Heap.NoRefL.consName (ns := [TName.mk name none]) h0.2 hx2))⟩,
       NoRefB.some.mpr ⟨Heap.NoRefSs.append.mpr ⟨h1.1, h2.2⟩, h0.2⟩⟩
 
@@ -163,7 +170,7 @@ theorem VkRep.dropLocalFn {pre rest : List Stmt} {last : Option Last} {kind : Lo
     have h1 := Heap.NoRefSs.append.mp (NoRefB.none.mp hnb)
     have h2 := NoRefSs.cons.mp h1.2
     exact ⟨.rep (.blockNone (.ssPrefix pre h1.1 (.genSs fun Q hq =>
-        dropLocalFn_sound (reflSs hq rest _ (Heap.NoRefSs.consName (ns := [TName.mk name none]) h2.2 hx1)))))
+        dropLocalFn_sound (NoRefS.localFn.mp h2.1).1 (reflSs hq rest _ (Heap.NoRefSs.consName (ns := [TName.mk name none]) h2.2 hx1)))))
         (.reflE (Heap.NoRefE.consName (ns := [TName.mk name none]) hnc hc')),
       NoRefB.none.mpr (Heap.NoRefSs.append.mpr ⟨h1.1, h2.2⟩), hnc⟩
   | some l =>
@@ -173,7 +180,7 @@ theorem VkRep.dropLocalFn {pre rest : List Stmt} {last : Option Last} {kind : Lo
     have hx2 : ∀ n ∈ ([TName.mk name none] : List TName).map TName.name, l.refs (.ref n) = false := fun n h => by
       have := hx' n h; simp only [tailRefs, Bool.or_eq_false_iff] at this; exact this.2
     exact ⟨.rep (.blockSome (.ssPrefix pre h1.1 (.genSs fun Q hq =>
-        dropLocalFn_sound (reflSs hq rest _ (Heap.NoRefSs.consName (ns := [TName.mk name none]) h2.2 hx1))))
+        dropLocalFn_sound (NoRefS.localFn.mp h2.1).1 (reflSs hq rest _ (Heap.NoRefSs.consName (ns := [TName.mk name none]) h2.2 hx1))))
           (.reflL (Heap.NoRefL.consName (ns := [TName.mk name none]) h0.2 hx2)))
         (.reflE (Heap.NoRefE.consName (ns := [TName.mk name none]) hnc hc')),
       NoRefB.some.mpr ⟨Heap.NoRefSs.append.mpr ⟨h1.1, h2.2⟩, h0.2⟩, hnc⟩
